@@ -83,6 +83,21 @@ type sess struct {
 	wid   int
 
 	whereFalseSeen int
+	hookSeq        int
+}
+
+// hookName: webhook names are never reused. tile38 runs one sender goroutine
+// per webhook which selects queued messages by hook NAME; the goroutine of a
+// deleted hook can still perform one last queue read after DELHOOK, and if a
+// hook of the same name was created meanwhile it takes (and sends, concurrently
+// with the new hook's own sender) the new hook's messages: the two senders are
+// not ordered, so a marker could overtake the message it is meant to close.
+// That is a delivery-order matter of hook re-creation (C10's property), not of
+// the fence rules, so this check keeps out of it. Channel names ARE reused and
+// replaced (Publish is synchronous).
+func (ss *sess) hookName() string {
+	ss.hookSeq++
+	return fmt.Sprintf("hk%d_%d", ss.wid, ss.hookSeq)
 }
 
 func (ss *sess) infra(format string, a ...any) {
@@ -253,6 +268,7 @@ func (ss *sess) uninstall(f *fence, del bool) {
 		}
 	case kHook:
 		ss.do("DELHOOK", f.name)
+		ss.ep.Forget(f.path)
 	case kLive:
 		if f.live != nil {
 			f.live.Close()
